@@ -259,8 +259,23 @@ class Roots:
         if k == "discr":
             return {"X:discr(%s)" % "|".join(sorted(self.roots(v[1])))}
         if k == "cycle":
-            # a loop-carried self reference adds nothing to the least fixpoint of the surrounding phi
-            return set()
+            # reference to a definition site's value: resolve it (least fixpoint: a re-entered query contributes nothing)
+            self.cycle_depth = getattr(self, "cycle_depth", 0) + 1
+            try:
+                if self.cycle_depth > 40 or len(v) < 7:
+                    return set()
+                f = self.P.fn(v[1])
+                if f is None or f.body is None:
+                    return set()
+                body = f.body
+                if v[3]:
+                    body = next((pb for pb in f.promoted if pb.tag == v[3]), f.body)
+                dv = self.P.val_def(f, body, (v[4], v[5], v[6]), v[2])
+                if dv[0] == "cycle":
+                    return set()
+                return self.roots(dv, path)
+            finally:
+                self.cycle_depth -= 1
         if k == "uninit":
             return set()
         return {"U:%s" % (v[1] if len(v) > 1 else k)}
